@@ -43,7 +43,10 @@ impl Io {
     fn exec(&self, e: &Entry, plan: &Plan, prop: &str, stats: &mut Stats, want_desc: bool) -> RunOut {
         let x = (e.exec)(plan, &e.hooks, prop, stats);
         let desc = if want_desc || x.violation.is_some() {
-            Some(x.failing_plan.as_ref().unwrap_or(plan).to_json())
+            let p = x.failing_plan.as_ref().unwrap_or(plan);
+            let mut j = p.to_json();
+            j["values_shown"] = json!((e.show)(p));
+            Some(j)
         } else {
             None
         };
